@@ -234,7 +234,7 @@ def run(ctx):
                     for i, p in [(i, progs[i]) for i in ctx.rng.sample(range(len(progs)), 2)]],
         "explanation": "PROVED (Coq, closed, over the model Model/Format.v): " + PROVED + "  VALIDATED ONLY: " + VALIDATED,
     })
-    ctx.level = "other"
+    ctx.level = "proof" if proved else "other"
     ctx.assumptions = ["the Coq model Model/Format.v is tied to formatting.rs by differential runs only",
                        "serde/lsp-types JSON mapping trusted (tabSize is a u32, insertSpaces a bool)"]
     if ctx.thorough() and proved:
@@ -249,10 +249,12 @@ PROVED = ("C11_null_iff (null exactly when the formatted text equals the documen
           "it), C11_proc_stmt_lines / C11_proc_var_lines (procedure bodies are one unit deep), C11_printer_reads_kinds_only, "
           "C11_parser_reads_kinds_only and C11_canonical (two documents whose token streams have the same kinds format identically: "
           "whitespace and positions never reach parser or printers).")
-VALIDATED = ("C11_idempotent_full_statement (needs the re-parse of the formatted text: C04 + C09 part A) is stated, not proved; it is checked "
-             "on the implementation by chained requests for every generated program and all 10 option settings, as are the exact "
-             "indentation depth of every output line (depth from the generator's derivation), canonical output for two layouts and "
-             "null-iff-unchanged.")
+VALIDATED = ("Idempotence is proved for EVERY valid program with comments in any gap (C11_idempotent_any, C11_idempotent_document_any; before "
+             "that for comment-free and leading-comment programs: C11_idempotent_comment_free / _lead): the printer's output is the rendering of "
+             "`kept p`, whose own formatting is the same text. C11_idempotent_full_statement in the wording `syntactically valid document` "
+             "(instead of `layout of an abstract program with prog_ok`) is stated only. All of it is also checked on the implementation by chained "
+             "requests for every generated program and all 10 option settings, as are the exact indentation depth of every output line "
+             "(depth from the generator's derivation), canonical output for two layouts and null-iff-unchanged.")
 
 
 def replay(ctx, path):
